@@ -544,6 +544,10 @@ def handle (cov : Array Nat) (line : String) : String × Array Nat :=
   | "frame" :: args => (doFrame args, cov)
   | "decode" :: args => (doDecode args, cov)
   | "iter" :: args => (doIter args, cov)
+  -- non-fused sources: the iterator reports `None` after the first segment although more items would
+  -- follow; both front-ends stop for good at the first `None`, so only the first segment counts
+  | ["iterx", cap, s1, _s2, k] => (doIter [cap, s1, k], cov)
+  | ["encix", s1, _s2, k] => (doEnci [s1, k], cov)
   | "rdr" :: args => (doRdr args, cov)
   | "sml" :: args => (doSml args, cov)
   | "abuf" :: args => (doAbuf args, cov)
